@@ -1,7 +1,7 @@
 """Property -> machinery table.  Each entry lists the Verus units (E1), MAST-lemma units (E2) and
 Kani harnesses (E3) that decide the property, plus the explicit not-decided list."""
 
-UNIT_RLIMIT = {'executor': 150}
+UNIT_RLIMIT = {'executor': 150, 'masm_u64': 150}
 
 T_FELT = 'T1 field model prelude/felt.rs: assumed contracts on winter-math BaseElement (new/as_int/add/sub/mul/neg/inv/eq/from) — external crate'
 T_TOOLS = 'T10 Verus 0.2026.09.13, Z3, rustc; machine integers are checked (not mathematical)'
@@ -9,6 +9,15 @@ T_TOOLS = 'T10 Verus 0.2026.09.13, Z3, rustc; machine integers are checked (not 
 T_RPO = 'T4 RPO hash (miden-crypto hash_elements / merge_in_domain) uninterpreted; collision resistance NOT assumed'
 
 PROPS = {
+    'C16': {
+        'level': 'proof',
+        'units': ['masm_u64'],
+        'kani': [],
+        'trusted_base': [T_FELT, T_TOOLS, 'T9 tools/mastdump prints the MAST built by /repo\'s assembler (public API); lib/e2gen.py transcribes it', 'hub spec/opsem.rs operation semantics (the relations the real op_* functions are proved to implement in C05)'],
+        'not_decided': ['u64 procedures without a lemma yet: div, mod, divmod, shl, shr, rotl, rotr, clz, ctz, clo, cto', 'u256 procedures'],
+        'sample_obligations': ['C16/masm_u64/masm::u64::wrapping_mul : for all u32 limbs and any stack tail, exec(MAST) leaves (a*b) mod 2^64 as limbs and the rest of the stack untouched',
+                               'C16/masm_u64/masm::u64::min : result is a if a < b else b'],
+    },
     'C02': {
         'level': 'proof',
         'units': ['glue_proof', 'air_boundary', 'serde_core'],
